@@ -77,7 +77,7 @@ func c18probe(env *Env, src string, want bool) c18obs {
 }
 
 func runC18(c *Check, rng *rand.Rand) {
-	c.Rule = "clients bound to 127.0.0.2..9 (127.0.0.1 stays listed for the harness's own witness); random histories of whitelist file edits {add, remove, enable, disable, replace all, in-place rewrite, write-temp + rename over the file, rapid double edit}; after each edit the admitted set is polled (each source connects and immediately sends a pipeline) and must equal the file's set, stable for two consecutive polls, within 8 s; rejected = closed without a single reply byte and nothing at any backend; bulk replacements: the list is replaced by one that shares 3 addresses with it (300-1500 loopback addresses leave, 0-1500 others enter) and afterwards EVERY address that left or entered is probed (none that left may still be served, none that entered still refused, 6 s later); distinct = (edit kind, write method, resulting set)"
+	c.Rule = "clients bound to 127.0.0.2..9 (127.0.0.1 stays listed for the harness's own witness); random histories of whitelist file edits {add, remove, enable, disable, replace all, in-place rewrite, write-temp + rename over the file, rapid double edit}; after each edit the admitted set is polled (each source connects and immediately sends a pipeline) and must equal the file's set, stable for two consecutive polls, within 8 s; lane 0 runs with the delay hook authip.afterEnable armed (a reload takes 250 ms) and issues double edits 0-450 ms apart; rejected = closed without a single reply byte and nothing at any backend; bulk replacements: the list is replaced by one that shares 3 addresses with it (300-1500 loopback addresses leave, 0-1500 others enter) and afterwards EVERY address that left or entered is probed (none that left may still be served, none that entered still refused, 6 s later); distinct = (edit kind, write method, resulting set)"
 	c.Assumptions = []string{"'within a few seconds' restated as <= 8 s after the edit completed (file watcher latency is milliseconds)"}
 	lanes := c.Pick(2, 8)
 	edits := c.Pick(8, 25)
@@ -291,7 +291,14 @@ func c18lane(c *Check, rng *rand.Rand, lane, edits int) {
 	if lane%2 == 1 {
 		st.enable = false
 	}
-	env, err := NewEnv(EnvOpt{Masters: 3, Cfg: ProxyCfg{WhiteEnable: st.enable, WhiteList: st.ips()}})
+	// lane 0 runs with a delay hook inside the reload (between "enable" and the list):
+	// a reload then takes a quarter of a second and later edits land inside it
+	hooked := lane == 0
+	var envv []string
+	if hooked {
+		envv = []string{"RCPROXY_VERIF_POINTS=authip.afterEnable=sleep(250)@0.6", fmt.Sprintf("RCPROXY_VERIF_SEED=%d", c.Seed+int64(lane))}
+	}
+	env, err := NewEnv(EnvOpt{Masters: 3, Cfg: ProxyCfg{WhiteEnable: st.enable, WhiteList: st.ips(), Env: envv}})
 	must(err, "start env")
 	defer env.Close()
 	env.Cl.SetHandler(func(b *BReq) Action { return Action{Reply: ValueReply(b)} })
@@ -392,6 +399,9 @@ func c18lane(c *Check, rng *rand.Rand, lane, edits int) {
 	methods := []string{"rewrite-in-place", "rename-over", "truncate-then-write"}
 	for e := 0; e < edits; e++ {
 		kind := c18nextKind(rng)
+		if hooked && rng.Intn(2) == 0 {
+			kind = "double"
+		}
 		method := methods[rng.Intn(len(methods))]
 		apply := func(k string) {
 			switch k {
@@ -456,6 +466,11 @@ func c18lane(c *Check, rng *rand.Rand, lane, edits int) {
 		} else if kind == "double" {
 			apply("add")
 			write(methods[rng.Intn(len(methods))])
+			if hooked {
+				// the second edit arrives before, inside or after the (slowed) reload of the first
+				time.Sleep(time.Duration(rng.Intn(450)) * time.Millisecond)
+				c.Count("double_edits_with_gap_in_hooked_lane", 1)
+			}
 			apply("remove")
 			write(method)
 		} else {
@@ -474,7 +489,6 @@ func c18lane(c *Check, rng *rand.Rand, lane, edits int) {
 		}
 	}
 }
-
 
 var (
 	c18deckMu sync.Mutex
